@@ -56,7 +56,8 @@ C20 = Prop(
          "set, map, built-in array, initializer list} x value category {lvalue, const, rvalue} (where the language "
          "allows) x length 0..6 (1..6 / 1..4 for built-in arrays / initializer lists) x read-only / write-through, with "
          "distinct ascending, descending and seeded random values; all under ASan (a dangling temporary is a "
-         "use-after-scope). Non-trivial: length >= 2. Distinct = distinct case line.",
+         "use-after-scope). Non-trivial: length >= 2. Distinct = distinct case line. " \
+                "For lvalue ranges (const or not) the addresses of the visited elements are compared with the container's own elements; kind fvp: a fixed_vector with stale slots behind its end (two elements pushed and popped again).",
     harness=HARNESS, search=lambda dis, rng: gen_c20("thorough", rng),
     theorem_hint="NitroVerif.Props.C20.{enumerate_visits,reverse_visits,enumerate_values,reverse_values,enumerate_alias,empty_ranges}",
     level_text="Lean 4 theorems for every length: the range-for protocol over the enumerate iterator (index kept beside the "
